@@ -29,7 +29,7 @@ rule = ("scripts = 'p fmt <description of the style> <sect flags> <opt flags>' t
         "descriptions (other delimiters, assignment and comment characters), single- and double-quoted and plain "
         "values, CR LF, no final line feed, text behind the last element, empty sections, blanks inside '[ s ]' / "
         "'| s' / '{ s', name and '{' on different lines, 'a{', first option on the header line, names with inner blanks "
-        "(brace family); stream 6 = 9 pairs of name restriction words x the 4 styles with names that mostly fit them; "
+        "; stream 6 = 9 pairs of name restriction words x the 4 styles with names that mostly fit them; "
         "non-trivial = the real code returned a tree with at least one section that has children or one value, counted "
         "per distinct script")
 assumptions = [
@@ -41,7 +41,8 @@ assumptions = [
     "theorems: format descriptions default (brace), '[ ] = #' (sep), '|x| = #' (bar), '{x} = #' (enc)",
     "a section header of the 'x' formats ('|s', '{s') as very last line WITHOUT line feed is refused (MissingData) by the "
     "real code and the model alike; a quote that opens in the middle of a value is kept (a='p'\"q\" reads p\"q): both "
-    "outside what the writer produces, the layouts stream avoids them",
+    "outside what the writer produces, the layouts stream avoids them; a section name of the 'x' formats ends at white "
+    "space (no blanks inside)",
     "the value of a node is observed through its character vector conversion (terminating zero dropped); buffer-backed "
     "(long) values offer no 's' string conversion",
     "memory allocation never fails in the harness runs",
@@ -484,7 +485,9 @@ def _lay_nested(r, F, forest, eol, depth=0):
     out = []
     for n, v, cs in forest:
         out.append(_lay_between(r, F, eol))
-        if cs is None and not (v is None and r.random() < 0.5):
+        blank_in = any(c in n for c in b" \t")
+        # (a section name of the `x` formats ends at white space: such a name can only be an option name there)
+        if cs is None and not (v is None and r.random() < 0.5 and not (fam == "enc" and blank_in)):
             out.append(_lay_option(r, F, n, v, eol))
             continue
         kids = cs or []
